@@ -91,6 +91,9 @@ var sharedImportPrograms = []string{
 	"import lib\nts := []\nfor i := 0; i < 4; i++ {\nts.append(spawn(func(k) {\nimport state\nimport lib\nstate.bump(k)\nreturn [lib.twice(k), state.count > 0]\n}, i))\n}\nrs := []\nfor _, t := range ts {\nrs.append(t.wait())\n}\nrs",
 }
 
+// envTemplate is the one environment map every with-OS evaluation builds its VirtualOS from
+var envTemplate = map[string]string{"VERIF_BASE": "base"}
+
 func goid() int {
 	var buf [64]byte
 	n := runtime.Stack(buf[:], false)
@@ -152,8 +155,12 @@ func concWorker(req N) (resp N) {
 			// directory) and one that is given none at all (the process's real OS, where VERIF_WHO is not set)
 			who := "import os\n[getenv(\"VERIF_WHO\"), os.getenv(\"VERIF_WHO\"), os.getwd() == \"/who\"]"
 			if pi == len(programs)+1+2*len(sharedImportPrograms) {
-				vos := ros.NewVirtualOS(ctx, ros.WithEnvironment(map[string]string{"VERIF_WHO": "g" + strconv.Itoa(gi)}), ros.WithCwd("/who"))
-				res, err := risor.Eval(ctx, who, risor.WithOS(vos))
+				// every evaluation gets a VirtualOS of its own, built from ONE environment template of the host's; the
+				// script sets a variable of its own in it and reads it back after some work
+				vos := ros.NewVirtualOS(ctx, ros.WithEnvironment(envTemplate), ros.WithCwd("/who"))
+				mine := "import os\nos.setenv(\"VERIF_WHO\", \"g" + strconv.Itoa(gi) + "\")\nx := 0\nfor i := 0; i < 2000; i++ {\nx += i\n}\n" +
+					"[getenv(\"VERIF_WHO\"), os.getenv(\"VERIF_WHO\"), os.getenv(\"VERIF_BASE\"), os.getwd() == \"/who\"]"
+				res, err := risor.Eval(ctx, mine, risor.WithOS(vos))
 				if err != nil {
 					return "ERR " + err.Error()
 				}
